@@ -10,6 +10,7 @@ const (
 	peerUnrelated = 1 // honest, holds an unrelated trie
 	peerPartial   = 2 // honest, holds a subset of the source nodes
 	peerByzantine = 3 // answers with forged material
+	peerSloppy    = 4 // honest, holds the whole source storage, but encodes its answers non-canonically (same content)
 )
 
 // genKeys builds n distinct keys. The trie indexes keys by their nibbles in reverse order, so shared byte
@@ -132,6 +133,13 @@ func generate(r *simkit.Rand, prop, tier string) *simkit.Plan {
 			p.Knobs["cacher_bytes"] = pickInt(r, 1000000, 100000000)
 		}
 	}
+	if r.Chance(0.4) { // the node's real intercepted-nodes pool: small capacity LRU spilling evicted entries to a persister
+		p.Knobs["pool"] = 1
+		p.Knobs["pool_cap"] = pickInt(r, 1, 2, 5, 20, 200)
+		if r.Chance(0.3) {
+			p.Knobs["pool_bytes"] = pickInt(r, 500, 3000, 30000)
+		}
+	}
 	p.Knobs["prefetch"] = pickInt(r, -1, -1, 0, 300, 3000, 30000)
 	if r.Chance(0.35) {
 		p.Knobs["preseed_pm"] = pickInt(r, 50, 300, 700, 950, 1000)
@@ -212,7 +220,11 @@ func generate(r *simkit.Rand, prop, tier string) *simkit.Plan {
 
 	// ---- peers and network ----
 	if !faulty {
-		p.Steps = append(p.Steps, simkit.Step{Op: "peer", T: 0, I: []int64{peerFull, 0, vseed(), 0}})
+		ffKind := int64(peerFull)
+		if r.Chance(0.3) {
+			ffKind = peerSloppy
+		}
+		p.Steps = append(p.Steps, simkit.Step{Op: "peer", T: 0, I: []int64{ffKind, 0, vseed(), int64(r.Range(200, 1000))}})
 		p.Steps = append(p.Steps, simkit.Step{Op: "net", I: []int64{vseed(), 0, 0, int64(r.Range(1, 80)), 0, 1, 0, 0}})
 		return p
 	}
@@ -226,14 +238,14 @@ func generate(r *simkit.Rand, prop, tier string) *simkit.Plan {
 	nPeers := r.Range(1, 4)
 	hasFull := false
 	for id := 0; id < nPeers; id++ {
-		kind := int64(r.Weighted([]int{5, 1, 2, 0}))
+		kind := int64(r.Weighted([]int{5, 1, 2, 0, 2}))
 		if en["forge"] {
-			kind = int64(r.Weighted([]int{4, 1, 2, 4}))
+			kind = int64(r.Weighted([]int{4, 1, 2, 4, 2}))
 		}
 		if id == nPeers-1 && !hasFull && r.Chance(0.85) {
 			kind = peerFull
 		}
-		if kind == peerFull {
+		if kind == peerFull || kind == peerSloppy {
 			hasFull = true
 		}
 		slow := int64(0)
